@@ -22,7 +22,7 @@ FormulaKinds == {"none", "valid_arith", "valid_fn", "valid_nested3", "valid_cros
 Placements == {"origin", "gap"}
 
 Rejecting == {"unknown_fn", "unknown_sheet", "lowercase_fn", "name", "error_literal", "unbalanced", "trailing_op",
-              "adjacent_pct", "empty_formula", "only_eq_space", "self_ref", "cross_sheet_range",
+              "adjacent_pct", "only_eq_space", "self_ref", "cross_sheet_range",
               \* coordinates that do not exist: row 0, a column spelled with four letters
               "row_zero", "abs_row_zero", "range_row_zero", "col_4letters", "wholecol_4letters",
               \* an area with a row number on one side only; a sheet prefix with an empty title
@@ -32,6 +32,7 @@ MustBeOk == {"none", "valid_arith", "valid_fn", "valid_nested3", "valid_crossshe
              "sumif_cell", "text_fn", "neg_pct_chain", "brackets8"}
 \* a title containing a quote must be spelled with a doubled quote inside a reference ('it''s'!B1); the supported
 \* reference grammar has no such escape, so rejecting that reference is admissible
+\* a lone "=" is stored by the workbook writer as a TEXT cell (it is not a formula): a constant or a rejection are both admissible
 Expected(f, t) == IF f \in Rejecting THEN {"lib"}
                   ELSE IF f \in {"valid_crosssheet"} /\ t = "quote" THEN {"ok", "lib"}
                   ELSE IF f \in MustBeOk THEN {"ok"} ELSE {"ok", "lib"}
